@@ -224,7 +224,7 @@ def run(report, db, tier):
     nsites = 0
     gen = db.get_func(ENC, 'generate_shared_secret')
     for caller in callers:
-        pk = ('sym', caller.params[1]) if len(caller.params) > 1 else \
+        pk = ('sym', caller.all_params[1]) if len(caller.params) > 1 else \
             ('sym', 'packet')
         res = {}
         for p in SS.run(caller):
@@ -322,7 +322,7 @@ def manual_signed(report, R2, db, helper, term):
     folded over all 256 first-byte values.  Returns the term with the helper
     call replaced by the equivalent int.from_bytes term."""
     from ..fold import Folder, Env, FoldRaise
-    b = helper.params[0]
+    b = helper.all_params[0]
     body = [st for st in helper.body if not (isinstance(st, ast.Expr)
                                             and isinstance(st.value,
                                                            ast.Constant))]
@@ -374,7 +374,7 @@ def manual_signed(report, R2, db, helper, term):
         for k in range(256):
             env = Env(helper.module)
             env.vars['signed'] = signed
-            env.vars[helper.params[1]] = signed
+            env.vars[helper.all_params[1]] = signed
             env.vars['__first__'] = k
             env.vars[b] = bytes([k]) + b'\x00' * 19
             try:
@@ -399,7 +399,7 @@ def manual_signed(report, R2, db, helper, term):
         report.ok(R2, 'hand-written signed conversion: negative iff signed '
                   'and first byte >= 0x80 (256 x 2 cases folded)')
 
-    signed = dict(term[3]).get(helper.params[1], term[2][1] if len(
+    signed = dict(term[3]).get(helper.all_params[1], term[2][1] if len(
         term[2]) > 1 else ('const', False))
     return ('call', ('attr', ('builtin', 'int'), 'from_bytes'),
             (term[2][0], ('const', 'big')), (('signed', signed),), 0)
@@ -419,7 +419,7 @@ def sent_unchanged(report, db, cg):
         raise AnalysisError('AuthenticationToken.join / _make_request '
                             'vanished')
     S = shared.summariser(db, cg, opaque=[mk], implicit_raises=False)
-    arg = ('sym', jn.params[1])
+    arg = ('sym', jn.all_params[1])
     n = 0
     for p in S.run(jn):
         for e in p.flat(('call',)):
